@@ -25,6 +25,9 @@ CLAIMED = {
  'C19': dict(cat='model_checking', tech='bounded model checking (CBMC/SAT) of the real name-file line splitter (mp::internal::ReadNames) and, thorough tier, of NameProvider, translated from clang IR; the file content is a symbolic byte buffer',
    text='Quick: ReadNames on every buffer up to 10 bytes (all byte values, data placed at either end of its block so under- and over-reads leave the object): each line reported once, in order, with \\n or \\r\\n stripped; missing final newline => ReadError. Thorough: the whole NameProvider (read, name(i), generic names) on buffers up to 8 bytes.',
    note='Partial: uniqueness and derivation of names created during conversion (VCString::MakeCountedName, PresolveNames) need the whole converter and are NOT claimed. The memory-mapped file is a harness buffer (NameReader::Read is the environment); fmt formatting of the error text is a stub. The NameProvider pipeline needs > 10 min even for 5-byte files and is only in the thorough tier.', ref='DESIGN.md 3 C19'),
+ 'C02': dict(cat='model_checking', tech='bounded model checking (CBMC/SAT, cadical for the arithmetic harnesses) of the real TextReader token functions translated from clang IR; the input text is a symbolic byte buffer with the NUL sentinel at the end of its block',
+   text='Token layer of the NL reader: ReadUInt, ReadInt<short|int|long>, ReadName, ReadString, ReadTillEndOfLine, ReadDouble are decided for every input of up to 12 bytes (quick) / 20 (thorough) and every cursor position: no read past the sentinel, accepted iff the decimal text is representable, value equals the text, cursor position, located ReadError otherwise (differential against a reference parser in the harness).',
+   note='Partial: only the text token layer is encoded. The segment layer (NLReader<Reader,Handler> index/count/nesting checks), ReadHeader, BinaryReader, the builder layer and the file-vs-memory path are NOT yet covered; they are listed as outside. strtod is an end-pointer-exact model; ReadError::init (message formatting) is a stub recording line/column.', ref='DESIGN.md 3 C02'),
 }
 NA = {
  'C09': 'whole-process driver behaviour (exit status, stderr, .sol file on disk) over an instantiated backend: no bounded unit states it and neither CBMC nor the IR engines can carry main->BackendApp::Run with filesystem effects; its encodable ingredients are decided under C02, C10, C11, C12',
